@@ -4,28 +4,28 @@ import importlib, json, os, sys
 sys.path.insert(0, os.path.dirname(os.path.dirname(os.path.abspath(__file__))))
 CLAIMED = ["C01", "C02", "C03", "C04", "C07", "C08", "C09", "C10", "C11", "C12", "C13", "C15", "C16", "C17", "C18", "C19"]
 NA = {
- "C05": "per-propagator soundness ('never removes a supported value') is a numerical statement over all boxes; no structural clause is both necessary and decisive (the defect observed in max_eq/min_eq is a wrong comparison operand, indistinguishable in shape from the right one). Static analysis cannot apply; a solver- or enumeration-based family would.",
+ "C05": "per-propagator soundness ('never removes a supported value') is a numerical statement over all boxes; no structural clause is both necessary and decisive for a filtering function in general (a floor that became a ceiling, a list walked in the wrong order are indistinguishable in shape from the right code). The few agreement rules that happen to bear on filtering -- two statements of one function contradicting each other: R-SOLE-CANDIDATE, R-INTERVAL-SUM, R-VECTOR-WIDTH -- are claimed under C01 / C02 / C07, whose clauses they are; they do not decide C05. Static analysis cannot apply; a solver- or enumeration-based family would.",
  "C06": "ground decisiveness ('a violated instantiated tuple is always rejected') is a numerical result per constraint type over all tuples and parameters; not visible in the shape of the code.",
  "C14": "exact bounds hull and idempotence of each filtering function are numerical results over all boxes (floor division, Hall-interval invariants); out of reach of dataflow / abstract domains available here.",
  "C20": "validity of the combinatorial objects produced by the shipped models and their literature counts are run-time values; nothing structural to decide.",
 }
 TECH = {
- "C01": "abstract interpretation (affine forms + Fourier-Motzkin path facts) of the propagation loop, search loop and wake-up table; dependency analysis of propagators vs triggers; who-may-write analysis",
- "C02": "typestate over generator paths; partition algebra on abstract post-states of value heuristics; engine soundness and shaving rules shared with C01/C10 (scope table)",
- "C03": "must-precede / must-follow on abstract paths of the optimisation loops; affine equality of tightening stores",
- "C04": "progress-measure rules on abstract paths; loop-variant derivation (guard measure, monotone pointer, counter sum) with Houdini invariants; structural precondition of the Hall-interval filtering",
- "C07": "who-may-write + path-condition analysis of enabled-flag stores; return-vocabulary check over the call graph",
- "C08": "bound-dependency (taint) analysis of filtering functions against per-position trigger masks; event-mask exactness on abstract paths",
- "C09": "abstract interpretation of value heuristics from a symbolic pre-state; interval-chain oracle; bitmask inclusion",
- "C10": "abstract interpretation of the shaving probe with a callee summary; first-iteration analysis of the probing loop",
- "C11": "path analysis of worker exits and of the parent receive loop (marker counting, keep-best fold, slot writes)",
- "C12": "abstract interpretation of Problem.split; affine adjacency and clamp entailment",
- "C13": "abstract interpretation of Problem.init (Python level) against the per-constraint cache oracle; offset round-trip equalities",
- "C15": "resolved call-graph role propagation (argument/parameter agreement), dispatch-table tracing, module-level state and mutable-default lint",
- "C16": "index-within-extent entailment from path facts for every shape index (table-free classification); assume/guarantee extent analysis of the Hall-interval helpers with inductive invariants; capacity-guard entailment; allocation-shape agreement",
- "C17": "counter <-> event-site correspondence on abstract paths (exactly-once on event paths, never elsewhere); label/index table agreement",
- "C18": "structural necessary conditions (handle retention, bounded queue read, liveness-dependent exit) on abstract paths",
- "C19": "capacity-guard entailment on abstract paths (dtype range of the level pointer, push extent); lint of wrapping conversions to narrow index types",
+ "C01": "abstract interpretation (affine forms + Fourier-Motzkin path facts) of the propagation loop, search loop and wake-up table; dependency analysis of propagators vs triggers; who-may-write analysis; interprocedural index-kind inference; intra-function agreement rules on filtering functions (interval sums, 32-bit vector arithmetic)",
+ "C02": "typestate over generator paths; partition algebra on abstract post-states of value heuristics; engine soundness and shaving rules shared with C01/C10 (scope table); agreement of candidate test and forced bound in aggregate constraints",
+ "C03": "must-precede / must-follow on abstract paths of the optimisation loops; affine equality of tightening stores; flow-sensitive maybe-None analysis of optimisation results",
+ "C04": "progress-measure rules on abstract paths; loop-variant derivation (guard measure, monotone pointer, counter sum) with Houdini invariants; structural preconditions of the Hall-interval filtering (sibling cross-check); call-graph closure of address-taken registries (no raise behind a function pointer); push on every path of every value heuristic",
+ "C07": "who-may-write + path-condition analysis of enabled-flag stores; return-vocabulary check over the call graph; entailment of path facts for the index / counter / table families of entailment guards; enforce/entail and mirror agreement",
+ "C08": "bound-dependency (taint) analysis of filtering functions against per-position trigger masks (effect calls modelled, may-dependences refused); event-mask exactness and write-back completeness on abstract paths",
+ "C09": "abstract interpretation of value heuristics from a symbolic pre-state; interval-chain oracle; bitmask inclusion; dtype agreement of index-carrying arrays",
+ "C10": "abstract interpretation of the shaving probe with a callee summary; first-iteration and loop-variant analysis of the probing loop (cursor monotonicity from the value filter passed to the scan)",
+ "C11": "path analysis of worker exits and of the parent receive loop (marker counting, keep-best fold, slot writes, join placement); dispatch-table tracing of the address arrays",
+ "C12": "abstract interpretation of Problem.split; affine adjacency and clamp entailment; ownership analysis of the domain lists; lint of copy / pickle hooks",
+ "C13": "abstract interpretation of Problem.init (Python level) against the per-constraint cache oracle; offset round-trip equalities; interprocedural index-kind inference (indices, counts, returned positions); sort-guard invalidation and posting-order-list analysis",
+ "C15": "resolved call-graph role propagation (argument/parameter agreement), dispatch-table tracing, module-level state and mutable-default lint; narrow-dtype arithmetic lint; call-graph closure of address-taken registries",
+ "C16": "index-within-extent entailment from path facts for every shape index (table-free classification); assume/guarantee extent analysis of the Hall-interval helpers with inductive invariants; capacity-guard entailment; allocation-shape agreement; clamp-before-use and guard-one-off contradictions; index-kind inference",
+ "C17": "counter <-> event-site correspondence on abstract paths (exactly-once on event paths, never elsewhere); label/index/aggregator table agreement (dict literal or comprehension over a constant table)",
+ "C18": "structural necessary conditions (handle retention, bounded queue read, liveness-dependent exit that leaves the call, no SIGCHLD disposition, no one-shot iterator across the waiting loop) on abstract paths and the syntax tree",
+ "C19": "capacity-guard entailment on abstract paths (dtype range of the level pointer, push extent; assertions establish nothing); lint of wrapping conversions to narrow index types; dtype agreement of index-carrying arrays; narrow-dtype arithmetic lint"
 }
 checks = []
 for pid in CLAIMED:
@@ -56,8 +56,8 @@ man = {
               "kind_free_text": "pure-stdlib ast-based static analyser: program model (imports, folded constants, registries, role propagation, mod summaries), "
                                 "path-sensitive abstract interpreter over affine forms with store-log memory, Fourier-Motzkin entailment, Houdini loop invariants, rule tables"}],
  "checks": checks,
- "notes": "Technique family: static analysis only (nothing under /repo is imported or executed by a check). 13 genuine defects found by the checks were repaired by fix: commits in /repo (12 in the first build round, the gcc zero-capacity hang in the second) "
-          "(listed in known_findings.json under 'fixed'). Exit codes: 0 ok, 1 VIOLATION, 2 ANALYSIS-ERROR.",
+ "notes": "Technique family: static analysis only (nothing under /repo is imported or executed by a check). 17 genuine defects of the pinned tree were reported by a check on the unchanged tree and then repaired by fix: commits in /repo "
+          "(listed in known_findings.json under 'fixed'; none is left under 'known'). Exit codes: 0 ok, 1 VIOLATION, 2 ANALYSIS-ERROR.",
  "not_applicable": [{"property_id": k, "reason": v} for k, v in NA.items()],
 }
 json.dump(man, open(os.path.join(os.path.dirname(os.path.dirname(os.path.abspath(__file__))), "MANIFEST.json"), "w"), indent=1)
